@@ -12,6 +12,7 @@ import Driver.Xorb
 import Driver.ShardOps
 import Driver.Cache
 import Driver.Uploads
+import Driver.ShardManager
 open Xet.Drv
 
 def dispatch (blob : Blob) (line : String) : String :=
@@ -25,6 +26,7 @@ def dispatch (blob : Blob) (line : String) : String :=
     else if cmd.startsWith "shard." then handleShard blob cmd rest
     else if cmd.startsWith "sess." || cmd == "sha256" then handleSession blob cmd rest
     else if cmd.startsWith "xorb." then handleXorb blob cmd rest
+    else if cmd.startsWith "mgr." then handleMgr blob cmd rest
     else if cmd.startsWith "up." then handleUploads blob cmd rest
     else if cmd.startsWith "cache." then handleCache blob cmd rest
     else if cmd.startsWith "recon." then handleRecon blob cmd rest
